@@ -51,7 +51,7 @@ class Check(CheckBase):
     bounds = {"quick": {"paths": "path ends (starts, plus ends when reversal is on) <= 2: n<=2 without reversal, n=1 with", "bins per side": "1, 2, 3",
                         "removals": "every subset of the paths removed before the query", "coordinates": "unbounded symbolic reals, non-zero total extent",
                         "query": "symbolic point anywhere (inside or outside the grid)"},
-              "thorough": {"paths": "as quick, plus 3 paths without reversal at bins 1-2, 2 ends at bins = 4, 2 paths with reversal at bins = 1 (3 ends x 3 bins and 4 ends x 2 bins did not finish in 3 h)",
+              "thorough": {"paths": "as quick, plus bins = 4 (3 and 4 path ends need ~50 s per obligation and did not finish in 3 h: not included)",
                            "bins per side": "1..4", "removals": "every subset", "coordinates": "as quick", "query": "as quick"}}
     outside = ["binary64 rounding in the bin computation (exact-real model)", "zero-extent inputs (all ends coincide): division by a zero bin size",
                "removing the same path twice", "more path ends / bins than the bound"]
@@ -72,7 +72,7 @@ class Check(CheckBase):
         else:
             for B in (1, 2, 3):
                 combos += [(1, B, False), (2, B, False), (1, B, True)]
-            combos += [(3, 1, False), (3, 2, False), (2, 4, False), (1, 4, True), (2, 1, True)]
+            combos += [(2, 4, False), (1, 4, True)]
         for n, B, rev in combos:
             for removed in itertools.chain.from_iterable(itertools.combinations(range(n), r) for r in range(n + 1)):
                 cs.append({"label": "n%d/B%d/%s/rm%s" % (n, B, "rev" if rev else "fwd", "".join(map(str, removed)) or "-"),
